@@ -167,6 +167,10 @@ func runC17(ctx *Ctx) {
 	pn := newCorr("pagenum")
 	ls := newCorr("linkscore")
 	defer ls.run(ctx)
+	pgi := newCorr("pageinfo")
+	defer pgi.run(ctx)
+	nsc := newCorr("numberscan")
+	defer nsc.run(ctx)
 	cellNo := 0
 	for _, f := range fams {
 		for _, bare := range []bool{false, true} {
@@ -204,6 +208,11 @@ func runC17(ctx *Ctx) {
 						if cellNo%16 == 3 && page != nil && ctx.Replay == "" {
 							// the per-anchor decisions of the prev/next finder on a sample of the cells
 							addLinkScoreCases(ls, rep, src, page, replay)
+							addPageInfoCases(pgi, rep, src, page, replay)
+						}
+						if cellNo%4 == 1 && page != nil && ctx.Replay == "" {
+							// the DOM scan on a quarter of the cells: tree in, groups out
+							addNumberScanCase(nsc, rep, src, page, replay)
 						}
 						cell := map[string]string{"family": f.Name, "bare": b01(bare), "n": fmt.Sprint(n), "k": fmt.Sprint(k)}
 						sig := func(clause string) map[string]string {
